@@ -131,9 +131,14 @@ Proof.
   destruct (259 <? 10 + length body)%nat; [rewrite S; apply good_triv|].
   destruct (10 + length body <=? length buf)%nat.
   - rewrite S. destruct (model_spec_mt _ _ _ _ _ _ _ M) as [body' [Sp _]]. rewrite Sp.
-    apply good_of. rewrite spec_packet_4_8.
-    destruct Hc as (Ha & _). rewrite list_eqb_refl. cbn [andb].
-    apply N.ltb_lt. eapply model_mt_lt. exact M.
+    apply good_of.
+    set (out := spec_packet (g_addr g) (enc_dest h id a) mt body ++ skipn (10 + length body) buf).
+    assert (H43 : sub out 4 3 = [1; enc_dest h id a; g_addr g]) by reflexivity.
+    assert (H7 : nth 7 out 0 = 200) by reflexivity.
+    assert (H8 : nth 8 out 0 = mt) by reflexivity.
+    rewrite H43, H7, H8, list_eqb_refl.
+    assert (Hmt : (mt <? 128) = true) by (apply N.ltb_lt; eapply model_mt_lt; exact M).
+    rewrite Hmt, (N.eqb_refl mt). destruct (negb h && (id <=? 6)); reflexivity.
   - not_success (snd (step ovf c (OEncode h id a ls buf))) S.
 Qed.
 
